@@ -338,12 +338,15 @@ CHECKS = {
   text="Lean theorems about the same LTS: C05_no_lost_wakeup (a caller waiting on an unset event: the event's "
        "creator is still before its event.set() with that very event), C05_lock_holder_enabled (the lock is never "
        "held across an await: its holder can always step), C05_waiter_wakeable, C05_publisher_enabled, "
-       "C05_waits_on_owners_event. Tie as C01, with loops that are also paused and run again (run_until_complete a "
+       "C05_waits_on_owners_event, C05_never_stuck (in every reachable state every unfinished caller on a running loop "
+       "can make progress: own step enabled | the awaited invocation can end | a waiter can be woken | the lock's "
+       "holder can step) and C05_moves_make_progress (every step of a caller and the end of its invocation strictly "
+       "decrease the distance to `done`; only a wake-up starts the path again: at most 17 moves between two waits). Tie as C01, with loops that are also paused and run again (run_until_complete a "
        "second time; label loopResume) and the scenario families takeover-resume / death-race, plus virtual-time "
        "monitors: every caller finishes (deadlock / step-budget detector), a caller that did not compute is released "
        "no later than the end of the computation it last waited for (not by the 60 s timer) unless the computing "
        "loop stopped in between, in which case the 60 s safety window applies",
-  note=NOTE_COMMON + "Partial: termination under fair scheduling is argued from these lemmas on paper; promptness "
+  note=NOTE_COMMON + "Partial: deadlock freedom and per-round progress are theorems (C05_never_stuck, C05_moves_make_progress); that the scheduler is fair and how many rounds a waiter goes are not; promptness "
        "and the 60 s recovery bound are measured in virtual time, not proved (the model over-approximates the "
        "waiting path).",
   tech="Lean 4 proof (wake-up and enabledness invariants of the LTS) + virtual-time promptness / hang monitors on "
